@@ -6,9 +6,9 @@ V = Path(__file__).resolve().parent.parent
 
 CHECKS = {
     "C10": dict(
-        text="Coq theorems about the model of Source.get_location / print_source_location line selection / lexer line bookkeeping (all texts, all offsets), tied to the code by exhaustive correspondence over short strings x offsets, all tokens, all syntax-error renderings and templated validation/execution errors",
-        note="model hand-written (Lang/Location.v); tie = extracted model vs impl on every run; sub-line rendering of >120-char lines only checked for not raising",
-        technique="Coq proof (induction on text) + extraction-based correspondence",
+        text="Coq theorems about the model of Source.get_location, the lexer's line bookkeeping and the COMPLETE rendering print_source_location/print_prefixed_lines (all texts, all offsets, all location offsets): location = spec (LF, CR LF once, CR; nothing else), every token carries get_location(start), the rendering never fails (every index access in range, both the ordinary and the >120-character sub-line branch), the excerpt rows are exactly previous/named/next line resp. the first 80*(col div 80+1) characters of the named line, and the printed column-1 is the length of the text between the last terminator and the offset (plus first-line padding); tied to the code by exhaustive correspondence over short strings x offsets x location offsets incl. exact rendered text, long-line families, all tokens, all syntax-error renderings and templated validation/execution errors",
+        note="model hand-written (Lang/Location.v, Lang/Render.v); tie = extracted model vs impl on every run (rendered text compared character by character); observation, not a violation of the property text: for a column that is a multiple of 80 on a >120-character line the caret is drawn under the first character of the next sub-line (divmod(column, 80), same as graphql-js)",
+        technique="Coq proof (induction on text; rendering totality and excerpt characterisation) + extraction-based correspondence",
         design="4/C10"),
 }
 
